@@ -521,6 +521,9 @@ class G:
         cx = [a for a in wc["body_args"] if a.startswith("cx")]
         if cx and info["req"]:
             self._forced = [self.pick([cx[0], "%s + '!'" % cx[0], "ident(%s)" % cx[0]])]
+        elif info["req"] and sc.in_loop and sc.loops and self.enable_loop and self.chance(35):
+            # the loop object named only in the argument / attribute of the call tag
+            self._forced = [self.pick(["str(loop.index)", "str(loop.first)", "loop.cycle('p', 'q')"])]
         if spelling == "call":
             node["callargs"] = self.callargs(sc, info)
         else:
@@ -612,6 +615,8 @@ def mentions_loop(nodes):
         if t == "try":
             if mentions_loop(n["body"]) or any(mentions_loop(b) for _, b in n["handlers"]):
                 return True
+        if t == "ccall" and pat.search((n.get("callargs") or "") + " ".join(str(a[2]) for a in n.get("attrs") or [])):
+            return True  # (in the argument / attribute expressions of the tag itself, which belong to the enclosing scope)
         if t in ("block", "ccall", "def"):
             # nested scopes: the generator never mentions loop inside them
             continue
